@@ -5,6 +5,7 @@ mod c02;
 mod c03;
 mod c05;
 mod c06;
+mod c18;
 
 fn main() {
     let a: Vec<String> = std::env::args().collect();
@@ -16,6 +17,7 @@ fn main() {
         "C03" => c03::run(tier, seed, dir),
         "C05" => c05::run(tier, seed, dir),
         "C06" => c06::run(tier, seed, dir),
+        "C18" => c18::run(tier, seed, dir),
         _ => { eprintln!("unknown property {}", prop); std::process::exit(2); }
     }
 }
